@@ -1,3 +1,4 @@
+mod calls;
 mod cmp;
 mod diff;
 mod gen;
@@ -7,6 +8,7 @@ mod mon;
 mod report;
 mod rng;
 mod run;
+mod snap;
 mod workloads;
 
 use report::Report;
@@ -14,9 +16,55 @@ use run::{CheckSpec, Ctx, Gate};
 
 const DIFF_RULE: &str = "Each evaluation is one history (terminal size + scrollback limit + list of feed/resize calls) run character by character through the real Vt, a stand-alone real Parser, the table-driven reference parser and the reference terminal; model and real terminal are compared after every dispatched function (cursor, every visible cell/pen/soft-wrap mark, scrollback, hooked modes/margins/tabs/saved contexts/parser registers). Histories come from G1 (seeded grammar streams), G2 (ALL sequences of k atoms of the property's alphabet on 13 tiny sizes) and G3 (content x margins x modes x every cursor position x command x parameter class). distinct_nontrivial counts distinct abstract situations (function kind, parameter class vs the relevant edge, column class incl. wrap-pending, row vs region, margin shape, origin/auto-wrap/insert/charset/screen/new-line/pen-class flags, row marked?, size class) in which a function governed by this property was executed and changed state or wrote cells.";
 
+const C03_RULE: &str = "(1) Parser table: every one of the 14 states, each entered through 2-4 (quick) / 5-8 (thorough) different backgrounds (fresh; after parameters / sub-parameters / intermediates; after an aborted sequence that filled all 32x6 slots), x ALL 1,112,064 Unicode scalar values, followed by a flush suffix whose dispatch exposes whatever was collected: returned function (full equality incl. parameters), next state and the hooked parameter registers are compared with the table-driven reference parser - this sub-space is enumerated completely. (2) dispatch product finals 0x40-0x7E x {none,?,!,<,=,>,0x20-0x2F} x 12 parameter shapes x 7/8-bit CSI, all ESC finals x intermediates, C1 twins. (3) memorylessness: all ordered pairs (anything, complete sequence) of a 110/79-entry pool and sampled triples against a fresh parser. (4) G1/G6 streams compared function by function in the differential monitor. evaluations = table pairs + sequences + pairs + stream histories; distinct_nontrivial = distinct (state, byte class [37 classes], background) + dispatch shapes + pairs.";
+
+const C20_RULE: &str = "Before/after monitor on one real terminal: (a) every CSI final x {none,?,<,=,>,0x20-0x2F} x 7 parameter shapes x 7/8-bit, every ESC final x intermediate, every C0/C1, every string kind x introducer form x terminator form x 8 payloads - each kept only if the REFERENCE dispatch table yields no function for it - on 6 prior states, via feed_str and via feed(); (b) random G1 prior histories (both screens, resizes, all limits) followed by random control strings (payloads up to 4096 chars over printable ASCII, non-ASCII, C0 minus CAN/SUB/ESC) and unimplemented sequences. After each sequence: Changes.lines empty, no scrollback handed out, view/lines/cursor/cursor-key mode/dump() and every hooked hidden field (modes, margins, tabs, saved contexts, parser registers and state = ground) identical to before. (c) differential monitor over string-heavy streams. distinct_nontrivial = distinct (introducer, second char, terminator, length class, payload class, prior-state class).";
+
+const C02_RULE: &str = "After EVERY public call (feed_str / feed / resize; Changes consumed, partially consumed or dropped at random) of every history the monitor asserts through the public API: size() = last requested, view().len() = rows, view() is the tail slice of lines() (pointer identity), every line has cols cells, lines().len() >= rows, last line not soft-wrapped (TextUnwrapper), cursor row < rows, col <= cols, line(n) = view()[n], Changes.lines strictly increasing and < rows; through the hook: pending_wrap <=> col == cols, buffer geometry = terminal geometry, margins/tabs/dirty rows/active saved cursor inside the screen, inactive buffer self-consistent. Histories: G1 with 28% resizes and boosted alternate-screen/save-restore tokens on 1x1..12x7 and 1x1..60x20, and ALL sequences of 3 calls over 53 atoms (6 of them resizes) on tiny screens. The clause 'col == cols only by printing in the last column with auto-wrap on' is decided by the per-character differential run (the model enters that position only that way). distinct_nontrivial = distinct (call kind / resize direction, limit class, screen before+after, wrap-pending, scrollback present, size class, inactive buffer stale?).";
+const C13_RULE: &str = "After every feed_str / resize call (Changes consumed / partially consumed / dropped at random) lines().len() <= rows + L + L/10, = rows for L = 0, = rows while the alternate screen shows. Histories: long G1 sessions (4-30 calls x 2-12 tokens, text/LF heavy, alt excursions, 10% resizes) under L in {0,1,2,9,10,11,25,100,1000}; bulk sessions (10-3000 lines in ONE call, narrowing/widening resize chains, alt excursions with resizes). distinct_nontrivial = distinct (L, handling, call kind, screen, trimmed?, drained-amount class).";
+const C15_RULE: &str = "Around every feed_str / resize call the visible rows are snapshotted; every row (present before and after) whose cells differ must be in Changes.lines of that call. Histories: G1 (half of them split into one function per call) incl. both screens, RIS, DECSTR, resize; ALL sequences of 3 calls over a 54-atom alphabet. Gates: every cell-mutating function kind was seen >= 500 times as the only function of a call that changed rows. distinct_nontrivial = distinct (first function kind, changed-rows pattern, screen, functions in call, size class) among calls that changed at least one row.";
+
 fn spec(prop: &str) -> CheckSpec {
     let p: &'static str = Box::leak(prop.to_string().into_boxed_str());
-    let mut gates = vec![Gate { counter: "focus_functions", min_quick: 10_000, min_thorough: 100_000 }];
+    let mut rule = DIFF_RULE;
+    let mut gates = vec![];
+    let mut exhaustive = false;
+    match prop {
+        "C03" => {
+            rule = C03_RULE;
+            exhaustive = true;
+            gates.push(Gate { counter: "table_state_scalar_pairs", min_quick: 38 * 1_112_064, min_thorough: 87 * 1_112_064 });
+            gates.push(Gate { counter: "memoryless_pairs", min_quick: 8000, min_thorough: 8000 });
+            gates.push(Gate { counter: "dispatch_sequences", min_quick: 30_000, min_thorough: 30_000 });
+            gates.push(Gate { counter: "functions", min_quick: 100_000, min_thorough: 1_000_000 });
+        }
+        "C20" => {
+            rule = C20_RULE;
+            gates.push(Gate { counter: "inert_sequences_checked", min_quick: 20_000, min_thorough: 400_000 });
+            gates.push(Gate { counter: "enumerated_inert_sequences", min_quick: 10_000, min_thorough: 10_000 });
+        }
+        "C02" => {
+            rule = C02_RULE;
+            gates.push(Gate { counter: "calls", min_quick: 100_000, min_thorough: 1_000_000 });
+            gates.push(Gate { counter: "resizes_on_alternate_screen", min_quick: 1000, min_thorough: 10_000 });
+        }
+        "C13" => {
+            rule = C13_RULE;
+            gates.push(Gate { counter: "calls_that_trimmed", min_quick: 5000, min_thorough: 50_000 });
+            gates.push(Gate { counter: "calls_on_alternate_screen", min_quick: 1000, min_thorough: 10_000 });
+        }
+        "C15" => {
+            rule = C15_RULE;
+            gates.push(Gate { counter: "calls_with_changed_rows", min_quick: 50_000, min_thorough: 500_000 });
+            for k in ["Print", "Lf", "Ri", "Su", "Sd", "Il", "Dl", "Ed", "El", "Ech", "Ich", "Dch", "Decaln", "Rep", "Decset", "Decrst", "Ris", "Resize"] {
+                let name: &'static str = Box::leak(format!("changed_by[{}]", k).into_boxed_str());
+                gates.push(Gate { counter: name, min_quick: 500, min_thorough: 500 });
+            }
+        }
+        _ => {
+            gates.push(Gate { counter: "focus_functions", min_quick: 10_000, min_thorough: 100_000 });
+        }
+    }
     if prop == "C06" {
         for c in ["scroll_up_whole_view", "scroll_up_top_anchored", "scroll_up_inner", "scroll_down", "scrollback_lines_pushed"] {
             gates.push(Gate { counter: c, min_quick: 1000, min_thorough: 10_000 });
@@ -27,7 +75,7 @@ fn spec(prop: &str) -> CheckSpec {
     }
     CheckSpec {
         prop: p,
-        rule: DIFF_RULE,
+        rule,
         assumptions: &[
             "the reference model (harness/src/model) is a faithful reading of the property statements; conventions U1-U6 (DESIGN 3.3) accept either outcome where the properties are silent",
             "the read-only hook Vt::verif_state() reports the hidden fields truthfully",
@@ -35,7 +83,7 @@ fn spec(prop: &str) -> CheckSpec {
         ],
         gates,
         watchdog: (600, 3600),
-        exhaustive: false,
+        exhaustive,
     }
 }
 
@@ -43,6 +91,11 @@ fn worker(ctx: &Ctx, rep: &mut Report) {
     match ctx.prop.as_str() {
         "C04" | "C05" | "C06" | "C07" => mon::diffmon::work(ctx, rep, (6000, 120_000), (3, 4), true),
         "C08" | "C17" | "C18" => mon::diffmon::work(ctx, rep, (8000, 150_000), (3, 4), false),
+        "C03" => mon::c03::work(ctx, rep),
+        "C20" => mon::c20::work(ctx, rep),
+        "C02" => mon::callmon::work_c02(ctx, rep),
+        "C13" => mon::callmon::work_c13(ctx, rep),
+        "C15" => mon::callmon::work_c15(ctx, rep),
         other => rep.inconclusive(format!("no monitor for {}", other)),
     }
 }
